@@ -359,6 +359,30 @@ def rule_dedup(ctx):
     run.floor(R, 6)
 
 
+def _pure_version_key(kexpr):
+    """is the sort / max key the stored version itself -- lambda o: o['modified'] (or o.modified, o.get('modified'), with an
+    `or o['created']` fallback), operator.itemgetter('modified') -- and not something computed from it (a lossy conversion
+    orders versions differently from their instants)"""
+    def proj(e, arg):
+        if isinstance(e, ast.Subscript) and isinstance(e.value, ast.Name) and e.value.id == arg and isinstance(e.slice, ast.Constant) \
+                and e.slice.value in ("modified", "created"):
+            return True
+        if isinstance(e, ast.Attribute) and isinstance(e.value, ast.Name) and e.value.id == arg and e.attr in ("modified", "created"):
+            return True
+        if isinstance(e, ast.Call) and isinstance(e.func, ast.Attribute) and e.func.attr == "get" and isinstance(e.func.value, ast.Name) \
+                and e.func.value.id == arg and e.args and isinstance(e.args[0], ast.Constant) and e.args[0].value in ("modified", "created"):
+            return True
+        if isinstance(e, ast.BoolOp) and isinstance(e.op, ast.Or):
+            return all(proj(v, arg) for v in e.values)
+        return False
+    if isinstance(kexpr, ast.Lambda) and len(kexpr.args.args) == 1:
+        return proj(kexpr.body, kexpr.args.args[0].arg)
+    if isinstance(kexpr, ast.Call) and norm(kexpr.func) in ("operator.itemgetter", "itemgetter", "operator.attrgetter", "attrgetter") \
+            and len(kexpr.args) == 1 and isinstance(kexpr.args[0], ast.Constant) and kexpr.args[0].value == "modified":
+        return True
+    return False
+
+
 def newest_idiom(fi, prog):
     """Recognise a 'latest version' selection in fi; returns (kind, detail) or None.
     Idioms: compare-and-replace with `>` on modified, sorted(key=modified)[-1], sorted(reverse=True)[0], max(key=)."""
@@ -369,10 +393,14 @@ def newest_idiom(fi, prog):
             rev = [k for k in c.keywords if k.arg == "reverse" and norm(k.value) == "True"]
             idx = norm(n.slice)
             if keyk and "modified" in norm(keyk[0].value):
+                if not _pure_version_key(keyk[0].value):
+                    return ("key-is-computed-from-the-version", norm(n))
                 if (idx == "-1" and not rev) or (idx == "0" and rev):
                     return ("sorted", norm(n))
                 return ("sorted-wrong-end", norm(n))
         if isinstance(n, ast.Call) and call_simple_name(n) == "max" and any(k.arg == "key" and "modified" in norm(k.value) for k in n.keywords):
+            if not all(_pure_version_key(k.value) for k in n.keywords if k.arg == "key"):
+                return ("key-is-computed-from-the-version", norm(n))
             return ("max", norm(n))
         if isinstance(n, ast.Call) and call_simple_name(n) == "min" and any(k.arg == "key" and "modified" in norm(k.value) for k in n.keywords):
             return ("min-wrong", norm(n))
